@@ -8,7 +8,8 @@ From PTK Require Import Lib.Sx Lib.Py Lib.C19_Str Gen.C19_Palette
      Proofs.C19_StyleStringFacts Proofs.C19_ResolvedFacts
      Model.C19_FromDict Model.C19_Transform Model.C19_Cache
      Proofs.C19_FromDictFacts Proofs.C19_TransformFacts Proofs.C19_CacheFacts
-     Model.C19_Merged Proofs.C19_MergedFacts Model.C19_Memoized Proofs.C19_MemoizedFacts.
+     Model.C19_Merged Proofs.C19_MergedFacts Model.C19_Memoized Proofs.C19_MemoizedFacts
+     Model.C19_Xterm Proofs.C19_XtermFacts Proofs.C19_EncodeFacts.
 Import ListNotations.
 Open Scope Z_scope.
 
@@ -333,3 +334,122 @@ Theorem C19_memoized_swap_transparent_fresh : forall opp l,
   swap_history opp [] l = map (transform opp (fun _ => None) TSwap) l.
 Proof. exact memoized_swap_transparent_fresh. Qed.
 Print Assumptions C19_memoized_swap_transparent_fresh.
+
+(* ---- the palette is the fixed xterm-256 palette -------------------------- *)
+(* xterm_256 (Model/C19_Xterm.v) is written down independently of the
+   implementation: a terminal shows THIS colour for `38;5;n`. *)
+
+Theorem C19_table_is_xterm : colors_256 = xterm_256.
+Proof. exact colors_256_is_xterm. Qed.
+Print Assumptions C19_table_is_xterm.
+
+(* the decoder's table is "#rrggbb" of xterm colour n for every n in 0..255 *)
+Theorem C19_decoder_table_is_xterm :
+  forallb (fun ic : Z * rgb =>
+             let '(r, g, b) := snd ic in
+             match assocZ (fst ic) ansi_256_hex with
+             | Some h => str_eqb h (35 :: hex02 r ++ hex02 g ++ hex02 b)
+             | None => false
+             end) (enumerate_from 0 xterm_256) = true
+  /\ List.length ansi_256_hex = 256%nat.
+Proof. exact ansi_256_hex_is_xterm. Qed.
+Print Assumptions C19_decoder_table_is_xterm.
+
+(* nearest colour OF THE XTERM PALETTE, for all r g b *)
+Theorem C19_256_nearest_xterm : forall r g b,
+  0 <= r <= 255 -> 0 <= g <= 255 -> 0 <= b <= 255 ->
+  exists c,
+    16 <= color256 r g b < 256 /\
+    nth_error xterm_256 (Z.to_nat (color256 r g b)) = Some c /\
+    (forall j cj, 16 <= j -> nth_error xterm_256 (Z.to_nat j) = Some cj ->
+                  dist r g b c <= dist r g b cj) /\
+    (forall j cj, 16 <= j < color256 r g b ->
+                  nth_error xterm_256 (Z.to_nat j) = Some cj ->
+                  dist r g b c < dist r g b cj).
+Proof. exact color256_nearest_xterm. Qed.
+Print Assumptions C19_256_nearest_xterm.
+
+(* every xterm colour with index >= 16 maps to its own index *)
+Theorem C19_256_xterm_fixpoint : forall i r g b,
+  16 <= i -> nth_error xterm_256 (Z.to_nat i) = Some (r, g, b) -> color256 r g b = i.
+Proof. exact color256_xterm_fixpoint. Qed.
+Print Assumptions C19_256_xterm_fixpoint.
+
+(* the table as coded before the fix 9cc52db (254 entries; 232 = (0,0,0);
+   254, 255 missing) was not the xterm palette: (238,238,238) -> 231 although
+   xterm colour 255 is exact, (8,8,8) -> 16 although xterm colour 232 is exact *)
+Theorem C19_table_pinned_refuted :
+  List.length colors_256_pinned = 254%nat /\
+  nth_error colors_256_pinned 232 = Some (0, 0, 0) /\ nth_error xterm_256 232 = Some (8, 8, 8) /\
+  color256_in colors_256_pinned 238 238 238 = 231 /\ color256_in xterm_256 238 238 238 = 255 /\
+  nth_error xterm_256 255 = Some (238, 238, 238) /\
+  color256_in colors_256_pinned 8 8 8 = 16 /\ color256_in xterm_256 8 8 8 = 232.
+Proof. exact colors_256_pinned_refuted. Qed.
+Print Assumptions C19_table_pinned_refuted.
+
+(* ---- the lower-depth clause at the level of the ENCODER ------------------ *)
+
+(* 8 bit: an RGB colour (six hexadecimal digits) is emitted as 38;5;n / 48;5;n
+   with n the index (>= 16, lowest on ties) of a nearest xterm colour, and the
+   decoder reads "#rrggbb" of exactly that xterm colour. *)
+Theorem C19_encode8_nearest : forall bg fgc bgc s fa,
+  hex6_b s = true ->
+  exists r g b c,
+    color_name_to_rgb s = Some (r, g, b) /\
+    get_codes 8 fgc bgc s bg fa = ([(if bg then 48 else 38); 5; color256 r g b], fa) /\
+    16 <= color256 r g b < 256 /\
+    nth_error xterm_256 (Z.to_nat (color256 r g b)) = Some c /\
+    (forall j cj, 16 <= j -> nth_error xterm_256 (Z.to_nat j) = Some cj -> dist r g b c <= dist r g b cj) /\
+    (forall j cj, 16 <= j < color256 r g b -> nth_error xterm_256 (Z.to_nat j) = Some cj ->
+                  dist r g b c < dist r g b cj) /\
+    (forall rest st,
+        sgr_loop ([(if bg then 48 else 38); 5; color256 r g b] ++ rest) st =
+        sgr_loop rest (set_col bg (Some (let '(r2, g2, b2) := c in color_str r2 g2 b2)) st)).
+Proof. exact encode8_nearest. Qed.
+Print Assumptions C19_encode8_nearest.
+
+(* 8 bit: an exact xterm colour (index >= 16) is emitted as its own index *)
+Theorem C19_encode8_fixpoint : forall bg fgc bgc s fa i r g b,
+  hex6_b s = true -> color_name_to_rgb s = Some (r, g, b) ->
+  16 <= i -> nth_error xterm_256 (Z.to_nat i) = Some (r, g, b) ->
+  get_codes 8 fgc bgc s bg fa = ([(if bg then 48 else 38); 5; i], fa).
+Proof. exact encode8_fixpoint. Qed.
+Print Assumptions C19_encode8_fixpoint.
+
+(* 4 bit: the foreground is sent as the code of its nearest palette name; the
+   background as the code of the nearest palette name EXCLUDING the
+   foreground's name whenever the two colour strings differ (C19_16_nearest
+   says what "nearest among the non-excluded" means). *)
+Theorem C19_encode4_codes : forall fs bs rf gf bf rb gb bb,
+  hex6_b fs = true -> hex6_b bs = true ->
+  color_name_to_rgb fs = Some (rf, gf, bf) -> color_name_to_rgb bs = Some (rb, gb, bb) ->
+  let nf := closest_ansi rf gf bf [] in
+  let nb := closest_ansi rb gb bb (if negb (str_eqb fs bs) then [nf] else []) in
+  colors_to_code 4 fs bs = [code_of false nf; code_of true nb].
+Proof. exact encode4_codes. Qed.
+Print Assumptions C19_encode4_codes.
+
+(* the chosen name is a palette name and the decoder reads it back *)
+Theorem C19_encode4_name : forall r g b ex,
+  0 <= r <= 255 -> 0 <= g <= 255 -> 0 <= b <= 255 -> (List.length ex <= 1)%nat ->
+  mem_str (closest_ansi r g b ex) ansi_color_names = true.
+Proof. exact closest_is_name. Qed.
+Print Assumptions C19_encode4_name.
+
+Theorem C19_encode4_decode : forall n, mem_str n ansi_color_names = true ->
+  (forall rest st, sgr_loop (code_of false n :: rest) st = sgr_loop rest (st_color (Some n) st)) /\
+  (forall rest st, sgr_loop (code_of true n :: rest) st = sgr_loop rest (st_bgcolor (Some n) st)).
+Proof. exact decode_name_codes. Qed.
+Print Assumptions C19_encode4_decode.
+
+(* the deliberate exception to "palette colours map to themselves": bg ff0000
+   alone is ansibrightred (itself); with fg FE0000 (a different string that
+   took ansibrightred) the same background is sent as ansired. *)
+Theorem C19_encode4_exclusion_witness :
+  exists fs bs,
+    hex6_b fs = true /\ hex6_b bs = true /\
+    (exists name, In (name, (255, 0, 0)) ansi_colors_to_rgb /\ color_name_to_rgb bs = Some (255, 0, 0) /\
+                  colors_to_code 4 [] bs = [code_of true name] /\
+                  colors_to_code 4 fs bs = [code_of false name; code_of true w_red]).
+Proof. exact encode4_exclusion_witness. Qed.
+Print Assumptions C19_encode4_exclusion_witness.
